@@ -500,3 +500,71 @@ def impl_qref(case):
         out["recompiled"] = {"ok": False, "exc": "skipped"}
     out["inexact"] = flags["inexact"]
     return out
+
+
+# ------------------------------------------------------------------ LaTeX rendering (C18)
+
+def _latex_sections(text):
+    """Split the rendered text into sections: header -> list of entry strings."""
+    body = text
+    if body.startswith("$\\begin{align}\n"):
+        body = body[len("$\\begin{align}\n"):]
+    if body.endswith("\n\\end{align}$"):
+        body = body[: -len("\n\\end{align}$")]
+    out = {}
+    for sec in body.split("\\newline\n"):
+        if sec.startswith("&\\underline{\\text{"):
+            head, _, rest = sec.partition(":}}\\\\\n")
+            name = head[len("&\\underline{\\text{"):]
+            if name == "Input parameters":
+                entries = [e for e in rest[1:].split(", ")] if rest.startswith("&") else []
+            else:
+                entries = rest.split("\\\\\n") if rest else []
+            out[name] = entries
+        else:
+            out.setdefault("_header", []).append(sec)
+    return out
+
+
+def impl_latex(case):
+    from bartiq import compile_routine
+    from bartiq.integrations.latex import routine_to_latex
+    from hier import to_qref
+    from qref import SchemaV1
+
+    doc = SchemaV1(**to_qref(case["routine"]))
+    out = {}
+    variants = [("src", doc)]
+    if case.get("compiled"):
+        try:
+            variants.append(("cmp", compile_routine(doc).to_qref()))
+        except BaseException as e:  # noqa: BLE001
+            if type(e).__name__ == "CaseTimeout":
+                raise
+            out["cmp"] = {"ok": False, "stage": "compile", "exc": type(e).__name__}
+    for tag, d in variants:
+        res = {}
+        for flag in (True, False):
+            for paged in (False, True):
+                key = f"{'all' if flag else 'root'}_{'paged' if paged else 'flat'}"
+                try:
+                    t = routine_to_latex(d, show_non_root_resources=flag, paged=paged)
+                    if paged:
+                        joined = "$\\begin{align}\n" + "\\newline\n".join(p[len("$\\begin{align}\n"):-len("\n\\end{align}$")] for p in t) + "\n\\end{align}$"
+                        secs = _latex_sections(joined)
+                    else:
+                        secs = _latex_sections(t)
+                    res[key] = {"ok": True, "counts": {k: len(v) for k, v in secs.items()}}
+                except BaseException as e:  # noqa: BLE001
+                    if type(e).__name__ == "CaseTimeout":
+                        raise
+                    res[key] = {"ok": False, "exc": type(e).__name__, "msg": str(e)[:120]}
+        prog = d.program
+        def nres(r):
+            return len(r.resources) + sum(nres(c) for c in r.children)
+        res["expect"] = {"params": len(prog.input_params), "in": sum(1 for p in prog.ports if p.direction == "input"),
+                         "out": sum(1 for p in prog.ports if p.direction == "output"),
+                         "through": sum(1 for p in prog.ports if p.direction == "through"),
+                         "root_res": len(prog.resources), "all_res": nres(prog)}
+        out[tag] = res
+    return out
